@@ -312,3 +312,7 @@ package core
 //@ func AppendProviderMetricsToLog
 //@   property C20
 //@   safety
+
+//@ extern net/http.NewResponseController(rw)
+//@   trusted
+//@   ensures res != nil
